@@ -1,4 +1,5 @@
-(* C10 — concrete witnesses (closed computations on the executable models). *)
+(* C10 — the inputs of the former findings F14 and F15 (repaired in /repo by commits b3717b9 and 44931b6): both
+   malformed manifests are now rejected with an error. *)
 From Coq Require Import NArith List String Bool.
 From AV Require Import lib.Str model.C10_manifest model.C10_ranges model.C10_fs model.C10_gomanifest.
 Import ListNotations.
@@ -7,10 +8,7 @@ Local Open Scope string_scope.
 Definition f14_text : string := ". 37b51d194a7513e45b56f6524f2d51f2+3 18446744073709551615:1:f" ++ s_nl.
 Definition f15_text : string := ". 37b51d194a7513e45b56f6524f2d51f2+3 9223372036854775807:1:f" ++ s_nl.
 
-(* F14: a malformed manifest (segment far past the 3-byte stream) makes Extract panic *)
-Lemma f14_panics : wf_manifest f14_text = false /\ gm_extract f14_text "." "." = Panic.
+Lemma f14_rejected : wf_manifest f14_text = false /\ gm_extract f14_text "." "." = Err.
 Proof. split; vm_compute; reflexivity. Qed.
-(* F15: a malformed manifest is loaded (with an empty file f) instead of being rejected *)
-Lemma f15_accepted : wf_manifest f15_text = false /\
-  fs_load f15_text = Some {| t_dirs := []; t_files := [(["f"], [])] |}.
+Lemma f15_rejected : wf_manifest f15_text = false /\ fs_load f15_text = None.
 Proof. split; vm_compute; reflexivity. Qed.
